@@ -383,7 +383,13 @@ def mt2(model):
         r.ok(ci[0], 'inline maths: inline=True, first section, next_repl=True', nontrivial=True)
     else:
         r.fail(ci[0], 'inline maths does not call replace_section(True, .., True, True, ..)')
-    if len(a) >= 5 and unparse(a[4]).endswith('lang_context.math_repl_inline'):
+    def coll_text(e):
+        if isinstance(e, ast.Name):
+            vals = T.resolve_local(model, e)
+            if len(vals) == 1 and vals[0] is not e:
+                return unparse(vals[0])
+        return unparse(e)
+    if len(a) >= 5 and coll_text(a[4]).endswith('lang_context.math_repl_inline'):
         r.ok(ci[0], 'inline collection of the current language')
     else:
         r.fail(ci[0], 'inline maths does not use lang_context.math_repl_inline')
@@ -396,7 +402,7 @@ def mt2(model):
              nontrivial=True)
     else:
         r.fail(cd[0], 'displayed maths does not call replace_section(False, .., first_section, next_repl, ..)')
-    if len(a) >= 5 and unparse(a[4]).endswith('lang_context.math_repl_display'):
+    if len(a) >= 5 and coll_text(a[4]).endswith('lang_context.math_repl_display'):
         r.ok(cd[0], 'display collection of the current language')
     else:
         r.fail(cd[0], 'displayed maths does not use lang_context.math_repl_display')
@@ -410,18 +416,70 @@ def mt2(model):
     else:
         r.fail(cd[0], 'the next-replacement flag returned by replace_section is not fed into the next call')
         sec_var = None
-    # first_section: False after '&', True after '\\\\' and at the start
+    # first_section: False after '&', True after '\\\\' and at the start -- decided by running the
+    # tail of the section loop concretely for the three kinds of section end
+    from .struct import _cev, _Stop
     fs = unparse(a[2]) if len(a) >= 3 else None
-    assigns = [(n, unparse(n.value)) for n in iter_scope(dis.node) if isinstance(n, ast.Assign)
-               and isinstance(n.targets[0], ast.Name) and n.targets[0].id == fs]
     vals = {}
-    for n, val in assigns:
-        facts = [unparse(e) for e, t in __import__('sa.guards', fromlist=['x']).facts(n) if t]
-        key = 'amp' if any("== '&'" in x for x in facts) else ('row' if any("'\\\\\\\\'" in x for x in facts) else 'init')
-        vals[key] = val
-    if vals.get('init') == 'True' and vals.get('amp') == 'False' and vals.get('row') == 'True':
-        r.ok(dis.node, 'first_section: True at start and after a row break, False after &',
-             nontrivial=True)
+    init = [n for n in dis.node.body if isinstance(n, ast.Assign) and any(
+        isinstance(t, ast.Name) and t.id == fs for t in n.targets)]
+    if init and isinstance(init[0].value, ast.Constant):
+        vals['init'] = repr(init[0].value.value)
+    lp = next((n for n in dis.node.body if isinstance(n, ast.While)), None)
+    endvar = None
+    if lp is not None:
+        for n in ast.walk(lp):
+            if isinstance(n, ast.Assign) and isinstance(n.targets[0], ast.Tuple) and isinstance(n.value, ast.Call) \
+                    and T.call_name(n.value) == 'expand_math_section' and len(n.targets[0].elts) == 2:
+                endvar = unparse(n.targets[0].elts[1])
+
+    def run(stmts, env):
+        for st_ in stmts:
+            if isinstance(st_, ast.If):
+                try:
+                    c = _cev(st_.test, env)
+                except _Stop:
+                    continue        # a test on something else (buf.cur()): not part of the table
+                res = run(st_.body if c else st_.orelse, env)
+                if res:
+                    return res
+            elif isinstance(st_, ast.Assign) and len(st_.targets) == 1:
+                t0 = st_.targets[0]
+                try:
+                    v = _cev(st_.value, env)
+                except _Stop:
+                    v = ('obj',)
+                if isinstance(t0, ast.Name):
+                    env[t0.id] = v
+                elif isinstance(t0, ast.Tuple) and isinstance(v, tuple) and len(v) == len(t0.elts) and v[:1] != ('obj',):
+                    for x, y in zip(t0.elts, v):
+                        if isinstance(x, ast.Name):
+                            env[x.id] = y
+                elif isinstance(t0, ast.Tuple):
+                    for x in t0.elts:
+                        if isinstance(x, ast.Name):
+                            env[x.id] = ('obj',)
+            elif isinstance(st_, ast.Break):
+                return 'BREAK'
+        return None
+    if lp is not None and endvar is not None and fs is not None:
+        for key, tokv in (('amp', ('tok', '&')), ('row', ('tok', '\\\\')), ('end', None)):
+            env = {endvar: tokv, fs: ('obj',)}
+            # dictionaries / tables defined before the loop
+            for n in dis.node.body:
+                if isinstance(n, ast.Assign) and isinstance(n.targets[0], ast.Name) and isinstance(n.value, ast.Dict):
+                    try:
+                        env[n.targets[0].id] = _cev(n.value, env)
+                    except _Stop:
+                        pass
+            idx = next((i for i, x in enumerate(lp.body) if any(
+                isinstance(c, ast.Call) and T.call_name(c) == 'replace_section' for c in ast.walk(x))), -1)
+            res = run(lp.body[idx + 1:], env)
+            vals[key] = 'BREAK' if res == 'BREAK' else repr(env.get(fs))
+    if vals.get('init') == 'True' and vals.get('amp') == 'False' and vals.get('row') == 'True' \
+            and vals.get('end') == 'BREAK':
+        r.ok(dis.node, 'first_section: True at start and after a row break, False after &; the loop ends '
+             'at any other section end', nontrivial=True)
     else:
         r.fail(dis.node, 'the section flag is not (True at start, False after &, True after \\\\): %s' % vals,
                stmt='first_section updates')
@@ -500,9 +558,11 @@ def mt5(model):
                stmt='last_char strips')
     rets = T.func_returns(f)
     idx_ok = any(isinstance(x, ast.Subscript) and T.is_const(x.slice) is False or True for x in rets)
+    def minus1(e):
+        return isinstance(e, ast.UnaryOp) and isinstance(e.op, ast.USub) and T.is_const(e.operand, 1)
     neg1 = [n for n in iter_scope(f.node) if isinstance(n, ast.Subscript)
-            and isinstance(n.slice, ast.UnaryOp) and isinstance(n.slice.op, ast.USub)
-            and T.is_const(n.slice.operand, 1)]
+            and (minus1(n.slice) or (isinstance(n.slice, ast.Slice) and minus1(n.slice.lower)
+                                     and n.slice.upper is None and n.slice.step is None))]
     if neg1:
         r.ok(neg1[0], 'index -1 of the stripped text')
     else:
